@@ -278,6 +278,16 @@ func (r *Rec) Fail(key, detail string, replay any) bool {
 	defer r.mu.Unlock()
 	if _, ok := r.known[key]; ok || survey {
 		h := r.hits[key]
+		if h == nil && survey && r.known[key] == nil {
+			// development aid: keep a reproducer for every key seen
+			dir := filepath.Join(r.Cfg.Root, ".tmp", "survey", r.Cfg.Prop)
+			os.MkdirAll(dir, 0o755)
+			b, _ := json.Marshal(replay)
+			rf := ReplayFile{Prop: r.Cfg.Prop, Key: key, Detail: detail, Case: b}
+			out, _ := json.MarshalIndent(rf, "", " ")
+			sum := sha256.Sum256([]byte(key))
+			os.WriteFile(filepath.Join(dir, hex.EncodeToString(sum[:6])+".json"), out, 0o644)
+		}
 		if h == nil {
 			if len(detail) > 600 {
 				detail = detail[:600] + "…"
